@@ -11,7 +11,7 @@ Proof. induction l; cbn; auto. Qed.
 Lemma upd_app_len {A} (l : list A) a b : upd (l ++ [a]) (length l) b = l ++ [b].
 Proof. induction l; cbn; congruence. Qed.
 
-Ltac flds := cbn [set_lock set_calls set_status set_id c_hold c_ready c_pc r_owner r_old r_oid r_ipeq r_occ r_left r_att r_pc
+Ltac flds := cbn [set_lock set_calls set_status set_id c_hold c_ready c_on c_pc r_owner r_old r_oid r_ipeq r_occ r_left r_att r_pc
                   budget status_ conn fresh sockclosed lost id index notified dischooks hooks okrounds rounds
                   readers calls lock plan pdef wedged].
 
@@ -25,7 +25,7 @@ Lemma one_call_recovers_lemma n uid p d s :
   let s' := run s (recover_events k) in
   status_ s' = SOk /\ health s' = true /\ okrounds s' = S (okrounds s) /\
   conn s' = fresh s /\ lock s' = None /\
-  nth_error (calls s') k = Some (mkCall false false (CAtPrelock (conn s'))) /\
+  nth_error (calls s') k = Some (mkCall false false None (CAtPrelock (conn s'))) /\
   readers s' = readers s ++ [(conn s', RReading)] /\
   rounds s' = rounds s ++ [(1, true)] /\ hooks s' = hooks s ++ [(true, VA)].
 Proof.
@@ -98,7 +98,7 @@ Lemma later_call_fails_lemma n uid p d s b :
   status_ s <> SOk -> plan s = [] -> pdef s = VU ->
   let k := length (calls s) in
   let s' := run s (fail_events k b) in
-  nth_error (calls s') k = Some (mkCall false false (CDone RClosed)) /\
+  nth_error (calls s') k = Some (mkCall false false None (CDone RClosed)) /\
   rounds s' = rounds s ++ [(S b, false)] /\ status_ s' = SRedialFailed /\ health s' = false /\
   lock s' = None /\ notified s' = notified s /\ index s' = index s.
 Proof.
